@@ -12,10 +12,10 @@ Cons=SetOf(PairOf(IntT(),Blk))
 TOP_FIELDS={'_dsl.all_upblks':SetOf(Blk),'_dsl.all_upblk_hostobj':DictOf(Blk,Cmp),'_dsl.all_U_U_constraints':SetOf(PairOf(Blk,Blk)),
   '_dsl.all_update_ff':SetOf(Blk),'_dsl.all_RD_U_constraints':DictOf(Sig,Cons,default='set'),'_dsl.all_WR_U_constraints':DictOf(Sig,Cons,default='set'),
   '_dsl.all_upblk_reads':DictOf(Blk,Any),'_dsl.all_upblk_writes':DictOf(Blk,Any),'_dsl.all_upblk_calls':DictOf(Blk,Any),
-  '_dsl.all_update_once':SetOf(Blk),'_dsl.all_M_constraints':SetOf(PairOf(Any,Any))}
+  '_dsl.all_update_once':SetOf(Blk),'_dsl.all_M_constraints':SetOf(PairOf(Any,Any)),'_dsl.all_adjacency':DictOf(Sig,SetOf(Sig),default='set')}
 M_FIELDS={'_dsl.upblks':SetOf(Blk),'_dsl.U_U_constraints':SetOf(PairOf(Blk,Blk)),'_dsl.update_ff':SetOf(Blk),
   '_dsl.RD_U_constraints':DictOf(Sig,Cons,default='set'),'_dsl.WR_U_constraints':DictOf(Sig,Cons,default='set'),
-  '_dsl.update_once':SetOf(Blk),'_dsl.M_constraints':SetOf(PairOf(Any,Any))}
+  '_dsl.update_once':SetOf(Blk),'_dsl.M_constraints':SetOf(PairOf(Any,Any)),'_dsl.adjacency':DictOf(Sig,SetOf(Sig),default='set')}
 TopT=CompT('Component',TOP_FIELDS); MT=CompT('Component',M_FIELDS)
 
 SRC="C15: 'nothing belonging to the removed component remains reachable from the top' / metadata equals that of a design built without it: every all_* collection loses exactly the removed component's contribution"
@@ -76,9 +76,27 @@ def collect_contracts():
               modifies=['s._dsl.all_upblk_hostobj'])},
     property_ids=('C15',), sample=False, note="only the level-1 part of _collect_vars (levels 2..4 call super() into the function-call closure of level 2, which is not under contract)")]
 
+def collect_regions():
+  """The own part of ComponentLevel3/4._collect_vars (the statement after the super() call, extracted as a region; the super() call into the
+  level-2 function-call closure is dropped and stays outside the contract)."""
+  S="C15: 'all queryable design metadata ... equals ... that of a design constructed from scratch': collecting a component adds exactly its own contribution and nothing else"
+  return [
+   Contract(f'{L[3]}::ComponentLevel3._collect_vars@own', region=('if isinstance(m, ComponentLevel3)',None), view={'s':TopT,'m':MT},
+    cases=[Case('component', requires='True',
+      ensures="forall(k, at(s._dsl.all_adjacency,k) == old(at(s._dsl.all_adjacency,k)) | at(m._dsl.adjacency,k))", source=S)],
+    modifies=['s._dsl.all_adjacency'], returns=None,
+    loops={'in m._dsl.adjacency.items()':Loop(invariant=["forall(k, at(s._dsl.all_adjacency,k) == ((pre(at(s._dsl.all_adjacency,k)) | at(m._dsl.adjacency,k)) if k in seen else pre(at(s._dsl.all_adjacency,k))))"],
+             modifies=['s._dsl.all_adjacency'])},
+    property_ids=('C15','C08'), sample=False, note="region: the `if isinstance(m, ComponentLevel3)` statement of _collect_vars; dropped: the preceding super()._collect_vars(m) call"),
+   Contract(f'{L[4]}::ComponentLevel4._collect_vars@own', region=('if isinstance(m, ComponentLevel4)',None), view={'s':TopT,'m':MT},
+    cases=[Case('component', requires='True',
+      ensures="s._dsl.all_update_once == old(s._dsl.all_update_once) | m._dsl.update_once and s._dsl.all_M_constraints == old(s._dsl.all_M_constraints) | m._dsl.M_constraints", source=S)],
+    modifies=['s._dsl.all_update_once','s._dsl.all_M_constraints'], returns=None,
+    property_ids=('C15',), sample=False, note="region: the `if isinstance(m, ComponentLevel4)` statement of _collect_vars; dropped: the preceding super()._collect_vars(m) call")]
+
 def contracts(repo):
   facts=level_facts(); defs=defining_levels(repo); top=max(defs) if defs else None
-  cs=collect_contracts()
+  cs=collect_contracts()+collect_regions()
   for lv in defs:
     levels=[l for l in facts if l<=lv]
     if lv==top: levels=list(facts)          # the most derived override answers for every level (nothing above it removes the rest)
